@@ -35,6 +35,7 @@ def faultAt (f : TraceFault) (k : Nat) : Option Nat :=
 /-- Result of a `do_collection` call: normal return or unwinding out of a `trace` call. -/
 inductive Exit where
   | returned | unwound
+  | outOfFuel    -- the fuel argument ran out (never happens: `Proofs/Termination`)
   deriving DecidableEq, Repr, Inhabited
 
 /-- One logged micro-step of the driver loop, as recorded by the `verif_log` hook. -/
@@ -56,7 +57,7 @@ def debtBreak (c : Ctx) (ru : RunUntil) : Bool := ru = .payDebt && !c.metrics.ha
 /-- The body of `loop { … }` in `do_collection`, with fuel.  `k` counts `trace` calls so far. -/
 def collectLoop (root : List Slot) (ru : RunUntil) (stop : Stop) (fault : TraceFault) :
     Nat → Ctx → Bool → Nat → Ctx × Exit
-  | 0, c, _, _ => (c.fail .outOfFuel, .returned)
+  | 0, c, _, _ => (c, .outOfFuel)
   | fuel + 1, c, hasSlept, k =>
     match c.phase with
     | .sleep =>
